@@ -35,7 +35,7 @@ func init() {
 			"Count/Infos are only observed at quiescent points (sync.Map.Range is not a snapshot; the property's 'always match' is read as: whenever no registration is in flight)",
 			"porcupine result Unknown (timeout) is inconclusive and never reported",
 		},
-		RequiredProbes: []string{"c05.regist-race", "c05.unregist-vs-regist", "c05.hls-access-postpones-idle-close"},
+		RequiredProbes: []string{"c05.regist-race", "c05.unregist-vs-regist", "c05.hls-access-postpones-idle-close", "c05.hls-segment-requests-only"},
 	})
 }
 
@@ -430,11 +430,19 @@ func buildC05Media(tier string) sim.Scenario {
 			st := streams[noCons[0]]
 			if hl := st.s.Hlsable(); hl != nil && st.s.VerifStatus() == media.StreamOK {
 				w.Probe("c05.hls-access-postpones-idle-close")
+				segOnly := tp.Bool() // a player that has its playlist and now only downloads segments
+				if segOnly {
+					w.Probe("c05.hls-segment-requests-only")
+				}
 				for k := 0; k < 5; k++ {
-					hl.M3u8("")
+					if segOnly {
+						hl.Segment(1 + k)
+					} else {
+						hl.M3u8("")
+					}
 					w.Sleep(2 * time.Minute)
 					if st.s.VerifStatus() != media.StreamOK {
-						w.Fail("C05/closed-despite-hls-access", "s%d (retired, no consumers) was closed for idleness %d min into a series of HLS playlist fetches 2 min apart (last fetch 2 min ago, idle period 5 min)", noCons[0], 2*(k+1))
+						w.Fail("C05/closed-despite-hls-access", "s%d (retired, no consumers) was closed for idleness %d min into a series of HLS requests (segments only=%v) 2 min apart (last fetch 2 min ago, idle period 5 min)", noCons[0], 2*(k+1), segOnly)
 						return
 					}
 				}
